@@ -13,11 +13,17 @@ index regenerated from the source into `Gen/IsomapSteps.lean`).  The model is ti
 
 All theorems hold for every number of samples, every `k`, every neighbour-list content satisfying `WF`, every
 non-negative weight function into any linearly ordered additive monoid (`ℚ`, `ℝ`, `ℕ`, …), every tie-breaking
-stream and every schedule.  Two full statements are *false of the code as it stands*; each is kept together with
-a refutation by a concrete witness (reproduced on the real code by the check) and the part that does hold:
+stream and every schedule.
 
-* `landmark_row_eq_full_row` for the Fibonacci build   — F-LISOMAP-FLAG  (`f[k]` instead of `f[landmarks[k]]`);
-* `isomap_is_cmds` for asymmetric directed geodesics   — F-ISOMAP-ASYM   (column means subtracted on both sides).
+History.  Two full statements were false of the code at the pinned commit; each was first represented here by a
+refutation with a concrete, kernel-checked witness (reproduced on the real code by the check) next to a `_partial`
+theorem, and is now proved in full for the repaired source (the generated `Gen/IsomapSteps.lean` follows the source;
+undoing a repair makes the corresponding theorem below fail to compile):
+
+* `landmark_row_eq_full_row` for the Fibonacci build — F-LISOMAP-FLAG (`f[k]` instead of `f[landmarks[k]]`;
+  witness: `flagWitness`, landmarks `[1]`: landmark row `[1, 0, dblmax]`, full row `[1, 0, 2]`);
+* `isomap_is_cmds` for asymmetric directed geodesics — F-ISOMAP-ASYM (`centerMatrix` subtracts column means on
+  both sides; witness: `asymD`: `5/16` instead of `19/16` at `(0,0)`).
 -/
 namespace TapkeeVerif.Dijkstra
 set_option linter.unusedSectionVars false
@@ -99,11 +105,11 @@ theorem fuel_suffices {P : Problem K} {k : Nat} (hwf : WF P k) (hw : ∀ a b, 0 
 
 /-! ## Landmark rows -/
 
-/-- **landmark_row_eq_full_row**, priority-queue build (full statement): every landmark row is the corresponding
-    row of the full matrix — the frontier flag is write-only in this build, so its index does not matter. -/
-theorem landmark_row_eq_full_row_lazy {P : Problem K} {k : Nat} (hw : ∀ a b, 0 ≤ P.w a b) (hk : P.k? = some k)
-    {ch ch' : Nat → Nat → Nat} {lm : List Nat} {L F : List (Vector (Option K) P.N)}
-    (hL : landmarkRows P .lazy ch lm = .ok L) (hF : allPairs P .lazy ch' = .ok F)
+/-- landmark rows, priority-queue build: every landmark row is the corresponding row of the full matrix (of either
+    build) — the frontier flag is write-only in this build, so this holds whatever index the flag statement uses. -/
+theorem landmark_row_eq_full_row_any_lazy {P : Problem K} {k : Nat} (hw : ∀ a b, 0 ≤ P.w a b) (hk : P.k? = some k)
+    {disc' : Disc} {ch ch' : Nat → Nat → Nat} {lm : List Nat} {L F : List (Vector (Option K) P.N)}
+    (hL : landmarkRows P .lazy ch lm = .ok L) (hF : allPairs P disc' ch' = .ok F)
     {r : Nat} (hr : r < lm.length) (hlr : lm[r] < P.N) :
     L[r]? = F[lm[r]]? := by
   obtain ⟨hlenL, hrowL⟩ := landmarkRows_rows hk hL
@@ -117,10 +123,9 @@ theorem landmark_row_eq_full_row_lazy {P : Problem K} {k : Nat} (hw : ∀ a b, 0
   exact (row_geodesic hw (Or.inl rfl) (hrowL r hr h1) v hv).unique
     (row_geodesic hw (Or.inr rfl) (hrowF _ hlr h2) v hv)
 
-/-- **landmark_row_eq_full_row_partial**, Fibonacci build: a landmark row equals the row of the full matrix
-    (of either build) whenever the frontier flag set before the loop is the landmark vertex's own flag —
-    as the code stands (`f[k]`) only for landmarks stored at their own position; for every landmark once
-    `Gen.Isomap.landmarkFlag r l = l`. -/
+/-- landmark rows, Fibonacci build, conditional form (this was the `_partial` theorem while F-LISOMAP-FLAG was
+    open): a landmark row equals the row of the full matrix whenever the frontier flag set before the loop is the
+    landmark vertex's own flag. -/
 theorem landmark_row_eq_full_row_partial {P : Problem K} {k : Nat} (hw : ∀ a b, 0 ≤ P.w a b) (hk : P.k? = some k)
     {disc : Disc} {ch ch' : Nat → Nat → Nat} {lm : List Nat} {L F : List (Vector (Option K) P.N)}
     (hL : landmarkRows P .indexed ch lm = .ok L) (hF : allPairs P disc ch' = .ok F)
@@ -150,31 +155,36 @@ example : WF flagWitness 1 := by
     omega
   rcases this with rfl | rfl | rfl <;> exact ⟨_, rfl, by decide⟩
 
-/-- **landmark_row_eq_full_row_refuted** (F-LISOMAP-FLAG).  The full statement
-    "every landmark row of the Fibonacci build equals the corresponding row of the full matrix" is false of the
-    code as it stands: on `flagWitness` with landmarks `[1]` the landmark row is `[1, 0, dblmax]` while row 1 of the
-    full matrix is `[1, 0, 2]` (vertex 0 carries the frontier flag without being in the heap, its relaxation
-    calls `decrease_key` on an absent node, it is never extracted and its edge `0 → 2` is never relaxed). -/
-theorem landmark_row_eq_full_row_refuted :
-    ¬ ∀ (P : Problem Nat) (k : Nat) (lm : List Nat) (ch ch' : Nat → Nat → Nat)
-        (L F : List (Vector (Option Nat) P.N)), WF P k → P.k? = some k → (∀ l ∈ lm, l < P.N) → lm.length ≤ P.N →
-        landmarkRows P .indexed ch lm = .ok L → allPairs P .indexed ch' = .ok F →
-        ∀ r (hr : r < lm.length), L[r]? = F[lm[r]]? := by
-  intro h
-  have hL : landmarkRows flagWitness .indexed (fun _ _ => 0) [1] = .ok [#v[some 1, some 0, none]] := by decide
-  have hF : allPairs flagWitness .indexed (fun _ _ => 0) =
-      .ok [#v[some 0, none, some 1], #v[some 1, some 0, some 2], #v[none, none, some 0]] := by decide
-  have hwf : WF flagWitness 1 := by
-    intro u hu i hi
-    have hi0 : i = 0 := by omega
-    subst hi0
-    have : u = 0 ∨ u = 1 ∨ u = 2 := by
-      have : u < 3 := hu
-      omega
-    rcases this with rfl | rfl | rfl <;> exact ⟨_, rfl, by decide⟩
-  have := h flagWitness 1 [1] (fun _ _ => 0) (fun _ _ => 0) _ _ hwf rfl (by decide) (by decide) hL hF 0 (by decide)
-  revert this
-  decide
+/-- **landmark_row_eq_full_row** (full statement, Fibonacci build; F-LISOMAP-FLAG repaired): every landmark row
+    equals the corresponding row of the full matrix of either build, for every landmark list (any order, repeats
+    allowed) and all tie-breaking streams.  Stated over the generated flag index: it compiles only while the source
+    sets the frontier flag of the landmark *vertex*. -/
+theorem landmark_row_eq_full_row {P : Problem K} {k : Nat} (hw : ∀ a b, 0 ≤ P.w a b) (hk : P.k? = some k)
+    {disc disc' : Disc} {ch ch' : Nat → Nat → Nat} {lm : List Nat} {L F : List (Vector (Option K) P.N)}
+    (hL : landmarkRows P disc ch lm = .ok L) (hF : allPairs P disc' ch' = .ok F)
+    {r : Nat} (hr : r < lm.length) (hlr : lm[r] < P.N) :
+    L[r]? = F[lm[r]]? := by
+  cases disc with
+  | lazy => exact landmark_row_eq_full_row_any_lazy hw hk hL hF hr hlr
+  | indexed => exact landmark_row_eq_full_row_partial hw hk hL hF hr hlr rfl
+
+/-- on the former witness of F-LISOMAP-FLAG the Fibonacci build now returns the row of the full matrix -/
+example : landmarkRows flagWitness .indexed (fun _ _ => 0) [1] = .ok [#v[some 1, some 0, some 2]] := by decide
+
+/-- the landmark overload never fails on valid landmarks (no out-of-bounds flag write, whatever the number of
+    landmarks): every landmark row exists -/
+theorem landmarkRows_ok {P : Problem K} {k : Nat} (hwf : WF P k) (hw : ∀ a b, 0 ≤ P.w a b) (hk : P.k? = some k)
+    (disc : Disc) (ch : Nat → Nat → Nat) {lm : List Nat} (hlm : ∀ l ∈ lm, l < P.N) :
+    ∃ L, landmarkRows P disc ch lm = .ok L := by
+  have hrow : ∀ r (hr : r < lm.length), ∃ row', row P disc k (ch r) lm[r] (Gen.Isomap.landmarkFlag r lm[r]) = .ok row' :=
+    fun r hr => row_ok (ch r) hwf hw (Or.inr rfl) (hlm _ (List.getElem_mem hr)) (hlm _ (List.getElem_mem hr))
+  classical
+  let res : Nat → Vector (Option K) P.N := fun r =>
+    if hr : r < lm.length then Classical.choose (hrow r hr) else Vector.replicate P.N none
+  refine ⟨_, landmarkRows_ok_of_rows hk lm res ?_⟩
+  intro r hr
+  simp only [res, hr, dite_true]
+  exact Classical.choose_spec (hrow r hr)
 
 /-- non-vacuity of the hypotheses used above: `flagWitness` has uniform lists and non-negative weights, and the
     discrete metric on it is a `Metric` -/
@@ -295,36 +305,40 @@ theorem center_eq_JAJ (hn : (n : K) ≠ 0) {A : Mat n n K} (hA : ∀ i j, A i j 
   exact mul_left_cancel₀ h3 h1
 
 /-- the generated statement list is the one the theorems below are about (fails to compile when
-    `IsomapImplementation::embed` changes: the statements must then be re-proved for the new list) -/
+    `IsomapImplementation::embed` or the dense solver's preamble changes: the statements must then be re-proved
+    for the new list) -/
 theorem isomapSteps_as_written :
-    Gen.Isomap.isomapSteps = [.square, .center, .scale (-1) 2] ∧ Gen.Isomap.denseSolverSymmetrises = true :=
+    Gen.Isomap.isomapSteps = [.square, .symmetrise, .center, .scale (-1) 2] ∧
+      Gen.Isomap.denseSolverSymmetrises = true :=
   ⟨rfl, rfl⟩
 
-/-
-**isomap_is_cmds** (full statement, FALSE of the code as it stands — F-ISOMAP-ASYM):
+/-- the matrix handed to the eigensolver is `−½ J S J`, `S` the squared geodesics with the two directions averaged -/
+theorem isomapPre_eq_cmds (hn : (n : K) ≠ 0) (D : Mat n n K) : isomapPre D = cmds (avgSquares D) := by
+  unfold isomapPre
+  rw [isomapSteps_as_written.1]
+  exact steps_fixed hn D
 
-    theorem isomap_is_cmds (hn : (n : K) ≠ 0) (D : Mat n n K) :
-        denseSolverInput (isomapPre D) = cmds (avgSquares D)
-
-i.e. the matrix the dense eigensolver decomposes is `−½ J S J` with `S` the squared geodesics, the two directions
-averaged.  It holds when the geodesic matrix is symmetric (`isomap_is_cmds_partial`), fails otherwise
-(`isomap_is_cmds_refuted`), and holds unconditionally for the statement list with the proposed one-line
-symmetrisation (`isomap_is_cmds_with_symmetrise`).
--/
-
-/-- **isomap_is_cmds_partial**: for symmetric geodesics. -/
-theorem isomap_is_cmds_partial (hn : (n : K) ≠ 0) {D : Mat n n K} (hD : ∀ i j, D i j = D j i) :
+/-- **isomap_is_cmds** (full statement; F-ISOMAP-ASYM repaired): for *every* geodesic matrix — symmetric or not —
+    what the dense eigensolver decomposes (after its own `(A + Aᵀ)/2`) is the classical-MDS matrix `−½ J S J` of the
+    squared geodesics with the two directions averaged. -/
+theorem isomap_is_cmds (hn : (n : K) ≠ 0) (D : Mat n n K) :
     denseSolverInput (isomapPre D) = cmds (avgSquares D) := by
-  unfold denseSolverInput isomapPre
-  rw [isomapSteps_as_written.1, isomapSteps_as_written.2]
+  unfold denseSolverInput
+  rw [isomapSteps_as_written.2, isomapPre_eq_cmds hn]
   simp only [if_true]
-  exact steps_current_symm hn hD
+  exact denseSym_of_symm (cmds_symm hn (avgSquares_symm D))
 
-/-- with the two directions averaged before centring (fixes/F-ISOMAP-ASYM.diff) the statement holds for every
-    geodesic matrix, and the matrix handed to the solver is already symmetric -/
-theorem isomap_is_cmds_with_symmetrise (hn : (n : K) ≠ 0) (D : Mat n n K) :
-    [Gen.Isomap.Step.square, .symmetrise, .center, .scale (-1) 2].foldl applyStep D = cmds (avgSquares D) :=
-  steps_fixed hn D
+/-- the matrix handed to the solver is symmetric, so every solver path (dense; randomized, which reads the upper
+    triangle only) sees the same matrix — F-RAND-UPPER cannot arise for Isomap -/
+theorem isomapPre_symm (hn : (n : K) ≠ 0) (D : Mat n n K) (i j : Fin n) : isomapPre D i j = isomapPre D j i := by
+  rw [isomapPre_eq_cmds hn]
+  exact cmds_symm hn (avgSquares_symm D) i j
+
+/-- the statements as they were before the repair (`square, center, scale`) give classical MDS only for symmetric
+    geodesics (this was `isomap_is_cmds_partial`) … -/
+theorem isomap_is_cmds_unrepaired_symm (hn : (n : K) ≠ 0) {D : Mat n n K} (hD : ∀ i j, D i j = D j i) :
+    denseSym ([Gen.Isomap.Step.square, .center, .scale (-1) 2].foldl applyStep D) = cmds (avgSquares D) :=
+  steps_current_symm hn hD
 
 /-- geodesic matrix of the 4 samples with symmetric metric distances
     `[[0,1,2,3],[1,0,3,4],[2,3,0,2],[3,4,2,0]]` and their (unambiguous) 2-nearest-neighbour lists
@@ -337,22 +351,24 @@ def asymP : Dijkstra.Problem ℚ :=
   { N := 4, nbrs := #[#[1, 2], #[0, 2], #[0, 3], #[2, 0]],
     w := fun i j => (([[0, 1, 2, 3], [1, 0, 3, 4], [2, 3, 0, 2], [3, 4, 2, 0]] : List (List ℚ)).getD i []).getD j 0 }
 
-/-- `asymD` is what the model computes on `asymP` -/
+/-- `asymD` is what the model computes on `asymP`: directed geodesics are asymmetric although the distances are
+    symmetric -/
 theorem asymD_is_geodesic_matrix :
     Dijkstra.allPairs asymP .lazy (fun _ _ => 0) =
       .ok [#v[some 0, some 1, some 2, some 4], #v[some 1, some 0, some 3, some 5],
            #v[some 2, some 3, some 0, some 2], #v[some 3, some 4, some 2, some 0]] := by
   decide +kernel
 
-/-- **isomap_is_cmds_refuted** (F-ISOMAP-ASYM): on `asymD` the decomposed matrix has `5/16` at `(0,0)`, classical MDS
-    of the averaged squared geodesics has `19/16`. -/
-theorem isomap_is_cmds_refuted :
-    ¬ ∀ (n : Nat) (D : Mat n n ℚ), denseSolverInput (isomapPre D) = cmds (avgSquares D) := by
+/-- … and not otherwise (this was `isomap_is_cmds_refuted`, the Lean witness of F-ISOMAP-ASYM): on `asymD` the
+    unrepaired statements put `5/16` at `(0,0)` where classical MDS of the averaged squares has `19/16`. -/
+theorem isomap_is_cmds_unrepaired_refuted :
+    ¬ ∀ (n : Nat) (D : Mat n n ℚ),
+        denseSym ([Gen.Isomap.Step.square, .center, .scale (-1) 2].foldl applyStep D) = cmds (avgSquares D) := by
   intro h
   have h00 := congrFun (congrFun (h 4 asymD) 0) 0
-  have h1 : denseSolverInput (isomapPre asymD) 0 0 = 5 / 16 := by
-    simp only [denseSolverInput, isomapPre, isomapSteps_as_written.1, isomapSteps_as_written.2, List.foldl, applyStep,
-      if_true, denseSym, centerMatrixIso_apply, colMeans_apply, grandMean_eq, squareEntries, Fin.sum_univ_four]
+  have h1 : denseSym ([Gen.Isomap.Step.square, .center, .scale (-1) 2].foldl applyStep asymD) 0 0 = 5 / 16 := by
+    simp only [List.foldl, applyStep, denseSym, centerMatrixIso_apply, colMeans_apply, grandMean_eq, squareEntries,
+      Fin.sum_univ_four]
     simp [asymD]
     norm_num
   have h2 : cmds (avgSquares asymD) 0 0 = 19 / 16 := by
